@@ -165,6 +165,19 @@ func judge(c Case, plan string, r *run, base *run) *pt.Failure {
 		return pt.Failf(sig("transaction-left-open"), "after the call (and the caller's Rollback) engine transactions are still open on connections %v\n%s", r.openTx, info())
 	}
 	changed := atenv.DiffSnap(r.d0, r.final) != ""
+	// (a delete and a re-insert of the same content, or an update and its reverse, are committed writes although
+	// the tables end up as they were)
+	committedTx := map[int]bool{}
+	for _, e := range r.journal {
+		if e.Kind == "COMMIT" && e.Err == "" && e.Tx != 0 {
+			committedTx[e.Tx] = true
+		}
+	}
+	for _, e := range r.journal {
+		if e.Err == "" && len(e.Writes) > 0 && committedTx[e.Tx] && !strings.Contains(strings.ToLower(e.Query), "undo_log") {
+			changed = true
+		}
+	}
 	normalUndo := 0
 	for _, u := range r.undo {
 		if st, _ := u["log_status"].(int64); st == 0 {
@@ -175,7 +188,19 @@ func judge(c Case, plan string, r *run, base *run) *pt.Failure {
 	if changed && normalUndo == 0 {
 		return pt.Failf(sig("writes-without-undo-log"), "business rows were committed but no undo_log row exists for %s:%s\n%s", r.xid, atenv.DiffSnap(r.d0, r.final), info())
 	}
-	if !changed && normalUndo != 0 && base != nil && atenv.DiffSnap(base.d0, base.final) != "" {
+	wroteSomething := false // (a delete and a re-insert of the same content are writes although the tables end up as they were)
+	undoTxs := map[int]bool{}
+	for _, e := range r.journal {
+		if e.Err == "" && e.Tx != 0 && strings.Contains(strings.ToLower(e.Query), "insert into undo_log") {
+			undoTxs[e.Tx] = true
+		}
+	}
+	for _, e := range r.journal {
+		if e.Err == "" && len(e.Writes) > 0 && undoTxs[e.Tx] && !strings.Contains(strings.ToLower(e.Query), "undo_log") {
+			wroteSomething = true // in the very local transaction that wrote the undo log
+		}
+	}
+	if !changed && !wroteSomething && normalUndo != 0 && base != nil && atenv.DiffSnap(base.d0, base.final) != "" {
 		// (an UPDATE that matches rows without changing them legitimately records an undo log: only a run
 		// whose fault-free twin changes rows is judged here)
 		return pt.Failf(sig("undo-log-without-writes"), "an undo_log row was committed but the business rows were not\n%s", info())
